@@ -106,6 +106,14 @@ BUILDERS = [
     ('vxlan', 14 + 20 + 8 + 8 + 14, lambda e, raw: ('let v = vxlan::session(1.1.1.1:1, 2.2.2.2:4789);', 'v.dgram(eth::frame("|000000000001|", "|000000000002|", %s));' % e)),
     ('gre', 14 + 20 + 4 + 14, lambda e, raw: ('let v = gre::session(1.1.1.1, 2.2.2.2, 0x6558);', 'v.encap(eth::frame("|000000000001|", "|000000000002|", %s));' % e)),
     ('tls-in-tcp', 54 + 5, lambda e, raw: ('let f = ipv4::tcp::flow(1.2.3.4:5, 6.7.8.9:443);', 'f.client_message(send_ack: false, tls::message(%s));' % e)),
+    ('udp-raw-flow', 28, lambda e, raw: ('let f = ipv4::udp::flow(1.2.3.4:5, 6.7.8.9:80, raw: true);', 'f.client_dgram(%s);' % e)),
+    ('udp-rawdgram', 14 + 8, lambda e, raw: ('let f = ipv4::udp::flow(1.2.3.4:5, 6.7.8.9:80);', 'eth::frame("|000000000001|", "|000000000002|", f.client_raw_dgram(%s));' % e)),
+    ('udp-rawdgram-rawflow', 14 + 8, lambda e, raw: ('let f = ipv4::udp::flow(1.2.3.4:5, 6.7.8.9:80, raw: true);', 'eth::frame("|000000000001|", "|000000000002|", f.server_raw_dgram(%s));' % e)),
+    ('tcp-rawseg', 14 + 20, lambda e, raw: ('let f = ipv4::tcp::flow(1.2.3.4:5, 6.7.8.9:80);', 'eth::frame("|000000000001|", "|000000000002|", f.client_raw_segment(%s));' % e)),
+    ('tcp-rawseg-rawflow', 14 + 20, lambda e, raw: ('let f = ipv4::tcp::flow(1.2.3.4:5, 6.7.8.9:80, raw: true);', 'eth::frame("|000000000001|", "|000000000002|", f.server_raw_segment(%s));' % e)),
+    ('tcp-raw-flow', 40, lambda e, raw: ('let f = ipv4::tcp::flow(1.2.3.4:5, 6.7.8.9:80, raw: true);', 'f.server_message(send_ack: false, %s);' % e)),
+    ('icmp-raw-flow', 28, lambda e, raw: ('let f = ipv4::icmp::flow(1.2.3.4, 6.7.8.9, raw: true);', 'f.echo(text::concat(%s));' % e)),
+    ('unicast-raw', 28, lambda e, raw: ('', 'ipv4::udp::unicast(1.2.3.4:5, 6.7.8.9:80, raw: true, %s);' % e)),
     ('len-prefixed', 14 + 2, lambda e, raw: ('', 'eth::frame("|000000000001|", "|000000000002|", std::len_be16(%s));' % e)),
 ]
 HEAD = 'import ipv4;\nimport eth;\nimport text;\nimport std;\nimport tls;\nimport vxlan;\nimport gre;\nimport io;\nimport dns;\nimport dhcp;\nimport netbios;\nimport erspan1;\nimport erspan2;\nimport time;\nimport arp;\n'
